@@ -663,6 +663,20 @@ def top_stmts(h):
     return list(b.get("stmts", [])) + ([b["tail"]] if b.get("tail") is not None else [])
 
 
+def must_pass_strict(body, pred):
+    """must_pass, and no `return` (outside closures) can be executed before the node that satisfies `pred` in a block"""
+    if not isinstance(body, dict):
+        return False
+    if body.get("k") == "block":
+        for st in list(body.get("stmts", [])) + ([body["tail"]] if body.get("tail") is not None else []):
+            if must_pass_strict(st, pred) if st.get("k") in ("block", "if", "match") else must_pass(st, pred):
+                return True
+            if any(x.get("k") == "ret" and not any(a.get("k") == "closure" for a in xa) for x, xa in walk(st)) or st.get("k") == "ret":
+                return False
+        return False
+    return must_pass(body, pred)
+
+
 def must_pass(body, pred):
     """Every path through `body` (a block / if / match / expression, early exits aside) evaluates a node
     satisfying `pred` — the syntactic must-pass-through: a statement of a block, both branches of an if,
@@ -1125,7 +1139,15 @@ class PCanon(Canon):
     def r(self, n, depth=0, env=None):
         t = Canon.r(self, n, depth, env)
         # `match (a, b) { (Some(aa), Some(bb)) => ..` : project the tuple literal
-        return t.replace("($P0, $P1).0", "$P0").replace("($P0, $P1).1", "$P1")
+        t = t.replace("($P0, $P1).0", "$P0").replace("($P0, $P1).1", "$P1")
+        # `let (x, y) = (e1, e2);` : project any flat pair literal
+        import re as _re
+        for _ in range(4):
+            t2 = _re.sub(r"\(([^(),]+), ([^(),]+)\)\.([01])", lambda m_: m_.group(1) if m_.group(3) == "0" else m_.group(2), t)
+            if t2 == t:
+                break
+            t = t2
+        return t
 
 
 def _anc_index(h):
